@@ -121,6 +121,7 @@ pub fn tree_sexpr(n: &Node) -> String {
 }
 
 pub fn run(n: usize, rng: &mut Rng, rep: &mut Report) {
+    env_pipeline(n / 3 + 1, rng, rep);
     for _ in 0..n {
         let ops = gen_ops(rng);
         let input = format!("ops={}", ops.iter().map(|(o, k, v)| format!("{}{}:{}", o, k, v)).collect::<Vec<_>>().join(";"));
@@ -173,4 +174,111 @@ pub fn run(n: usize, rng: &mut Rng, rep: &mut Report) {
             rep.violation("replace", input, "children / range / attrs changed".into());
         }
     }
+}
+
+// ---- the document environment and node environments as seen THROUGH the parser: values a rule or a node
+// constructor stores and nobody removes are still there, exactly once, when the parse returns
+#[derive(Debug, PartialEq, Eq, Clone, Copy)] pub struct DocTag(pub u32);
+#[derive(Debug, PartialEq, Eq, Clone, Copy)] pub struct DocCount(pub u32);
+#[derive(Debug, PartialEq, Eq, Clone, Copy)] pub struct DocFlag; // zero-sized
+#[derive(Debug, PartialEq, Eq, Clone, Copy)] pub struct Origin(pub u32);
+#[derive(Debug, PartialEq, Eq, Clone, Copy)] pub struct Seen(pub u32);
+
+pub struct EnvEarly;
+impl markdown_it::parser::core::CoreRule for EnvEarly {
+    fn run(root: &mut Node, _: &markdown_it::MarkdownIt) {
+        let env = &mut root.cast_mut::<markdown_it::parser::core::Root>().unwrap().env;
+        env.insert(DocTag(7)); env.insert(DocFlag); env.get_or_insert(DocCount(0)).0 += 1;
+    }
+}
+pub struct EnvMid;
+impl markdown_it::parser::core::CoreRule for EnvMid {
+    fn run(root: &mut Node, _: &markdown_it::MarkdownIt) {
+        let env = &mut root.cast_mut::<markdown_it::parser::core::Root>().unwrap().env;
+        env.get_or_insert(DocCount(100)).0 += 1;
+    }
+}
+pub struct EnvLate;
+impl markdown_it::parser::core::CoreRule for EnvLate {
+    fn run(root: &mut Node, _: &markdown_it::MarkdownIt) {
+        let env = &mut root.cast_mut::<markdown_it::parser::core::Root>().unwrap().env;
+        env.get_or_insert(DocCount(1000)).0 += 1;
+        root.walk_mut(|n, _| { if n.is::<crate::cfg::Gen>() { n.env.get_or_insert(Seen(100)).0 += 1; } });
+    }
+}
+
+fn stamped(kind: &'static str) -> Node {
+    let mut n = Node::new(crate::cfg::Gen(kind));
+    n.env.insert(Origin(kind.len() as u32)); n.env.insert(Seen(1)); n.env.insert(DocFlag);
+    n
+}
+
+pub fn env_parser(c: &crate::cfg::Cfg) -> markdown_it::MarkdownIt {
+    use markdown_it::generics::inline::{code_pair, emph_pair, full_link};
+    use markdown_it::parser::block::builtin::BlockParserRule;
+    use markdown_it::parser::inline::builtin::InlineParserRule;
+    let mut md = c.build();
+    code_pair::add_with::<'%', true>(&mut md, |_| stamped("pct"));
+    code_pair::add_with::<'$', false>(&mut md, |_| stamped("dollar"));
+    emph_pair::add_with::<'^', 1, true>(&mut md, || stamped("sup"));
+    full_link::add_prefix::<'?', true>(&mut md, |_, _| stamped("qlink"));
+    md.add_rule::<EnvEarly>().before::<BlockParserRule>();
+    md.add_rule::<EnvMid>().after::<BlockParserRule>().before::<InlineParserRule>();
+    md.add_rule::<EnvLate>().after_all();
+    md
+}
+
+pub fn env_doc(rng: &mut Rng) -> String {
+    match rng.below(8) {
+        0 => (*rng.pick(&["", " ", "\n", "\n\n \n", "\t", "\u{feff}"])).to_string(),
+        1 => { let mut s = String::new(); for i in 0..rng.range(1, 4) { s.push_str(&format!("[r{}]: /u{} 't'\n", i, i)); } s }
+        2 | 3 => { let mut s = crate::gen::doc::any_doc(rng); s.push_str(*rng.pick(&["\n\n?[q *e*](/u) %p *e*% $m$ x^s^", " ?[q](/u)", "\n> %a% ?[b `c`](/d 't')\n", "\n- ^s ?[l](/x)^\n"])); s }
+        4 => format!("?[{}](/u)", crate::gen::doc::inline_text(rng, 0, 4)),
+        5 => format!("%{}% ^{}^", crate::gen::doc::inline_text(rng, 0, 3), crate::gen::doc::inline_text(rng, 0, 3)),
+        _ => crate::gen::doc::any_doc(rng),
+    }
+}
+
+pub fn env_pipeline(n: usize, rng: &mut Rng, rep: &mut Report) {
+    let mut cases = vec![];
+    for _ in 0..n {
+        let mut c = crate::cfg::sample(rng, false, true);
+        c.mask &= (1 << crate::cfg::N_PLUGINS) - 1;
+        cases.push((c, env_doc(rng)));
+    }
+    let res = crate::run::big_stack(move || {
+        let mut rep = Report::new();
+        for (c, d) in cases {
+            let input = format!("env cfg[{}] src={}", c.describe(), crate::util::hexs(&d));
+            let md = env_parser(&c);
+            let tree = match crate::util::guarded(|| md.parse(&d)) { Ok(t) => t, Err(_) => { rep.stats.count("skipped_panic_C01"); continue; } };
+            let mut gens = 0;
+            let mut bad: Option<String> = None;
+            match tree.cast::<markdown_it::parser::core::Root>() {
+                None => bad = Some("the root node is not a Root".into()),
+                Some(r) => {
+                    if r.env.get::<DocTag>() != Some(&DocTag(7)) { bad = Some(format!("document env: DocTag stored before the block pass reads {:?}", r.env.get::<DocTag>())); }
+                    else if !r.env.contains::<DocFlag>() { bad = Some("document env: zero-sized DocFlag lost".into()); }
+                    else if r.env.get::<DocCount>() != Some(&DocCount(3)) { bad = Some(format!("document env: counter touched by three get_or_insert calls reads {:?}, a map gives Some(DocCount(3))", r.env.get::<DocCount>())); }
+                }
+            }
+            tree.walk(|node, _| {
+                if let Some(g) = node.cast::<crate::cfg::Gen>() {
+                    gens += 1;
+                    let want = Origin(g.0.len() as u32);
+                    if node.env.get::<Origin>() != Some(&want) && bad.is_none() { bad = Some(format!("node env of {:?}: Origin stored by the constructor reads {:?}", g, node.env.get::<Origin>())); }
+                    if node.env.get::<Seen>() != Some(&Seen(2)) && bad.is_none() { bad = Some(format!("node env of {:?}: Seen(1) + one get_or_insert increment reads {:?}", g, node.env.get::<Seen>())); }
+                    if !node.env.contains::<DocFlag>() && bad.is_none() { bad = Some(format!("node env of {:?}: zero-sized flag lost", g)); }
+                }
+            });
+            rep.stats.case(&input, gens > 0 || tree.children.is_empty());
+            if gens > 0 { rep.stats.count("env_docs_with_constructor_nodes"); }
+            if tree.children.is_empty() { rep.stats.count("env_docs_without_blocks"); }
+            if let Some(b) = bad { rep.violation("env-through-parser", input, b); }
+        }
+        rep
+    });
+    for (k, v) in res.stats.counters.iter() { for _ in 0..*v { rep.stats.count(k); } }
+    rep.stats.evaluations += res.stats.evaluations;
+    rep.violations.extend(res.violations);
 }
